@@ -264,9 +264,9 @@ func c06RolesJob(tier string) *SeqJob {
 	j := &SeqJob{Property: "C06", Name: "name-key-value-call-histories"}
 	j.Run = func(ctx *SeqCtx) {
 		for ci := range cfgs {
+			ctx.OpsPrefix = []string{fmt.Sprint(ci)}
 			bfs(ctx, alphabet, depth, exec(ci))
 			if ctx.viol != nil {
-				ctx.viol.Ops = append([]string{fmt.Sprint(ci)}, ctx.viol.Ops...)
 				return
 			}
 		}
